@@ -189,8 +189,8 @@ class Exec(object):
             return mt.obj, {"kind": what, "tracks": [tm]}
         if what == "comp":
             mc = self.world.pick(self.world.comps, op["ref"])
-            if mc is None or len(mc.obj.tracks) != len(mc.tracks):
-                return None, None
+            if mc is None or len(mc.obj.tracks) != len(mc.tracks) or not mc.tracks:
+                return None, None  # the properties quantify over compositions of 1-4 tracks
             tms = [self._track_model(self.world.tracks[i]) for i in mc.tracks]
             if any(t is None for t in tms):
                 return None, None
@@ -725,11 +725,31 @@ def _gen_track(rng, ops, cfg, prop, single_key_meter):
         name = "".join(rng.choice("abcdefgh XYZ019") for _ in range(rng.randrange(1, 20)))
     ops.append({"op": "track", "instr": instr, "name": name})
     t = sum(1 for o in ops if o["op"] == "track") - 1
+    t_index = t
     key = rng.choice(world.ALL_KEYS) if rng.random() < cfg["key_p"] else "C"
     meter = rng.choice(world.METERS)
     chan = None if rng.random() < 0.3 else rng.randrange(16)
     nbars = rng.choice([0, 1, 1, 2, 2, 3, 4, 6]) if prop == "C16" else rng.choice([1, 1, 2, 2, 3, 4])
+    tick_mode = rng.random() < cfg.get("tick_mode_p", 0.0)
     for bi in range(nbars):
+        if tick_mode:
+            # any value with a whole tick count is legal (288/value integral), not only the named ones:
+            # entries of t ticks in a long bar, biased to the variable-length-quantity boundaries
+            ops.append({"op": "bar", "key": key, "meter": [16, 4]})
+            b = sum(1 for o in ops if o["op"] == "bar") - 1
+            left = 1152
+            for i in range(rng.randrange(1, 9)):
+                t = rng.choice([1, 2, 3, 32, 63, 64, 65, 96, 127, 128, 128, 129, 160, 255, 256, 257, 300, rng.randrange(1, 400), rng.randrange(1, 400)])
+                if t > left:
+                    break
+                left -= t
+                sym = [[288, t], 0, 1, 1]
+                if rng.random() < max(cfg["rest_p"], 0.35):
+                    ops.append({"op": "place", "bar": b, "notes": None, "v": sym})
+                else:
+                    ops.append({"op": "place", "bar": b, "notes": world.gen_chord(rng, chan, vel_lo=vel_lo), "v": sym})
+            ops.append({"op": "tadd", "track": t_index, "bar": b})
+            continue
         if not single_key_meter:
             if rng.random() < 0.4:
                 key = rng.choice(world.ALL_KEYS) if rng.random() < cfg["key_p"] else "C"
@@ -750,8 +770,8 @@ def _gen_track(rng, ops, cfg, prop, single_key_meter):
             else:
                 o = {"op": "place", "bar": b, "notes": world.gen_chord(rng, chan, vel_lo=vel_lo), "v": sym}
             ops.append(o)
-        ops.append({"op": "tadd", "track": t, "bar": b})
-    return t
+        ops.append({"op": "tadd", "track": t_index, "bar": b})
+    return t_index
 
 
 def _gen_plan(rng, cfg, for_read=False):
@@ -783,6 +803,7 @@ def generate(rng, prop, tier):
         "lead_rest_p": rng.choice([0.0, 0.0, 0.3, 1.0]),
         "trail_rest_p": rng.choice([0.0, 0.0, 0.3, 1.0]),
         "flip_p": rng.choice([0.0, 0.0, 0.3, 0.6]) if prop == "C17" else 0.0,
+        "tick_mode_p": rng.choice([0.0, 0.0, 0.3, 1.0]),
     }
     ops = []
 
